@@ -569,7 +569,10 @@ func c17Subjects() []c17Subject {
 				r, flush, done := mkRegs(kind)
 				for i := 0; i < 3; i++ {
 					i := i
-					r.RegisterGauge(fmt.Sprintf("base%d", i), func() (float64, bool) { return float64(i), true })
+					r.RegisterGauge(fmt.Sprintf("base%d", i), func() (float64, bool) {
+						time.Sleep(time.Duration(i) * 100 * time.Microsecond) // suppliers read limiters and may take their time: a poll is not instantaneous
+						return float64(i), true
+					})
 				}
 				r.Start()
 				return []c17Method{
